@@ -7,6 +7,27 @@ HERE = os.path.dirname(os.path.dirname(os.path.abspath(__file__)))
 
 # id -> (category, technique, text, note, design_ref)
 CLAIMED = {
+    "C12": (
+        "exploration",
+        "exhaustive enumeration of (device specification, source-program variant, linearisation) combinations through the real hardware compilers, judged by an own layout matcher, range check and photon-statistics reference",
+        "Generated X-series devices with 1, 2 (thorough 3) spatial modes x 3 parameter-range variants; sources = every combination of a squeezer variant per pair (none, S2(0), S2(1), S2(.5), twice, reversed, wrong pair) x interferometer variant (Interferometer(U) over a finite unitary family, explicit BS/MZ/R words, different / mixing / one-sided halves) x measurement variant (all, subset, split, gate after) x every order of the squeezer commands (3e4 cases quick), compiled with Xunitary and Xcov; the device's own template with in- and out-of-range values through Xstrict; device A -> device B on one compiler class. Either CircuitError/ValueError exactly where the reference deems the source inadmissible or out of range, or: wire-by-wire match with the parsed layout, every matched parameter inside the device range, same Gaussian state (Xunitary/Xstrict) / same photon statistics up to local phases (Xcov: vacuum probability, |B_ij|, all four-photon hafnian moduli).",
+        "blackbird parser trusted; Borealis/TDM device compilation not enumerated (loop-phase certificates), see DESIGN.",
+        "DESIGN.md section 4 (C12)",
+    ),
+    "C19": (
+        "exploration",
+        "exhaustive enumeration of photon numbers / mode counts / samples / all labelled small graphs / seeds / weight vectors, with a choice-DFS following every np.random.choice and shuffle answer, against exact integer arithmetic and brute force (built by sub-agent, reviewed)",
+        "orbits, orbit_cardinality, event_cardinality for every photon number 0..10 (12) x mode count 1..64 (200) x max count; sample<->orbit<->event conversions on all samples with <= 4 photons on <= 5 modes under every permutation/orbit answer; is_clique, c_0, c_1, grow, swap, shrink, search on all labelled graphs on <= 4 (5) nodes x 3 labellings x every node subset as seed x uniform/degree/all {1,2}-weight vectors with every random pick followed and checked for admissibility; subgraph.resize / search bookkeeping on every graph, subset and size window; sample.postselect / modes_from_counts / to_subgraphs on all small samples (1.2e6 evaluations quick).",
+        "Graphs up to 5 nodes, photon numbers up to 12; numpy.random owned by the harness.",
+        "DESIGN.md section 4 (C19)",
+    ),
+    "C20": (
+        "exploration",
+        "exhaustive enumeration of a declared lattice of graphs / embeddings / parameter vectors / data sets / molecules, against finite differences, a perfect-matching hafnian reference state and real-space Franck-Condon integrals (built by sub-agent, reviewed)",
+        "All graphs on 2-4 nodes + weighted matrices x n_mean x Exp/ExpFeatures embeddings x parameter lattice {-.4,0,.3}^d x all small data sets: KL.grad and Stochastic.grad equal central finite differences of the reported cost, ExpFeatures.jacobian equals finite differences, prob_photon_sample equals the brute-force hafnian probability of the reference Gaussian state for every pattern with <= 6-8 photons, prob_click sums to 1 over all click patterns, mean photon/click numbers and n_mean equal the state's moments, A_to_cov is a valid pure covariance with the right A-matrix; prob_orbit_exact / prob_event_exact equal brute-force sums; gbs_params reproduces the Duschinsky relation on 1.4e4 molecules, VibronicTransition equals the Doktorov operator and the real-space Franck-Condon integrals, TimeEvolution is passive and conserves photon number on the Fock backend, duschinsky and marginals equal their definitions.",
+        "Continuous inputs on a declared lattice. Three recorded findings (vibronic squeezing sign, two signatures; A_to_cov basis).",
+        "DESIGN.md section 4 (C20)",
+    ),
     "C14": (
         "exploration",
         "exhaustive enumeration of operation classes x parameter kinds x dagger x mode order, of short sequences, option combinations and TDM programs, through the real writers and readers of both IRs and generate_code, compared in a normal form and by reference maps",
